@@ -14,3 +14,5 @@ mod move_while_borrowed;
 mod multiple_consumers;
 mod ordered_call_graph;
 mod ownership_relationship;
+#[cfg(pavex_verif)]
+mod verif_dump;
